@@ -12,6 +12,8 @@ NETWORK
  5 5 /
 WELLDIMS
  8 8 4 8 /
+WSEGDIMS
+ 4 10 4 /
 UDQDIMS
  10 10 4 10 10 4 4 4 10 /
 ACTDIMS
@@ -88,6 +90,13 @@ MISC = {
 
 def kw_text(k):
     n = k["kw"]
+    if n == "MSW":
+        w, i = k["well"], k["i"]
+        t = ("WELSEGS\n %s 2000 0 1* INC HF- /\n 2 2 1 1 5 5 0.2 0.0001 /\n 3 3 1 2 5 5 0.2 0.0001 /\n/\n"
+             "COMPSEGS\n %s /\n %d %d 1 1 0 5 /\n %d %d 2 1 5 10 /\n/\n") % (w, w, i, i, i, i)
+        if k["v"] == 2:
+            t += "WSEGVALV\n %s 3 0.8 0.01 /\n/\n" % w
+        return t
     if n == "MISC":
         kind, vs = MISC[k["name"]]
         t = vs[k["v"] - 1]
